@@ -90,6 +90,9 @@ func (p *c19Proto) ParsePackage(b []byte) (int, int) {
 	n, st := protocol.TarsRequest(b)
 	if st == protocol.PackageFull {
 		atomic.AddInt32(&p.parsed, 1)
+		if n >= 8 && len(b) >= 8 {
+			p.lg.add(c19KRead, int(binary.BigEndian.Uint32(b[4:8]))) // the receive loop has cut this request out of its stream
+		}
 	}
 	return n, st
 }
